@@ -1,79 +1,126 @@
 #!/usr/bin/env python3
-"""seedconfirm.py <seed-out-dir> <PROP> : confirm one seeded change in a scratch copy of /repo and, if confirmed,
-store it as /verif/seeded/<PROP>-<n>/ (patch.diff, demo files, meta.json). Steps: demo passes on pristine; patch
-applies and builds; demo fails with the patch; the existing tests of the touched packages pass with the patch
-(TestSequenceLargeLog, TestCCADBRoots and skylight TestScripts are load/network sensitive: they are run but
-reported separately); then the registered check is run against the patched copy."""
+"""seedconfirm.py <seed-out-dir> <PROP> <name> [--skip-tests] [--tier quick|thorough] [--no-keep]
+
+Confirms one seeded change (written by an independent sub-agent: patch.diff, demo *_test.go, meta.json) in a scratch
+git worktree of /repo (never in /repo itself) and, if confirmed, stores it as /verif/seeded/<PROP>-<name>/ :
+  1. the demonstration passes on the pristine worktree;
+  2. the patch applies and `go build ./...` succeeds;
+  3. the demonstration fails with the patch;
+  4. the whole existing test suite passes with the patch (TestSequenceLargeLog is load sensitive — it fails on the
+     unchanged tree too when the machine is busy — so it is run separately and retried alone; TestCCADBRoots needs the
+     network and is skipped by the suite itself offline);
+  5. the registered check(s) are run against the patched worktree via VERIF_REPO and the verdict is recorded.
+The worktree and its build output are removed afterwards."""
 import sys, os, re, json, subprocess, tempfile, shutil, glob, time
-sd, prop = sys.argv[1].rstrip("/"), sys.argv[2]
+
+args = [a for a in sys.argv[1:] if not a.startswith("--")]
+sd, prop, name = args[0].rstrip("/"), args[1], args[2]
 skip_tests = "--skip-tests" in sys.argv
+keep = "--no-keep" not in sys.argv
+tier = "quick"
+if "--tier" in sys.argv:
+    tier = sys.argv[sys.argv.index("--tier") + 1]
+    args = [a for a in args if a != tier]
 env = dict(os.environ, GOFLAGS="-mod=mod", GOPROXY="off")
-demos = glob.glob(os.path.join(sd, "*_test.go"))
-pkgmap = {"ctlog": "internal/ctlog", "ctlog_test": "internal/ctlog", "sunlight": ".", "sunlight_test": ".", "witness": "internal/witness", "witness_test": "internal/witness"}
-src = open(demos[0]).read()
-pk = re.search(r"(?m)^package (\w+)", src).group(1)
+demos = sorted(glob.glob(os.path.join(sd, "*_test.go")))
+meta = {}
+if os.path.exists(os.path.join(sd, "meta.json")):
+    try:
+        meta = json.load(open(os.path.join(sd, "meta.json")))
+    except Exception as e:
+        meta = {"meta_error": str(e)}
 patch = open(os.path.join(sd, "patch.diff")).read()
 touched = sorted(set(os.path.dirname(f) or "." for f in re.findall(r"(?m)^\+\+\+ b/(\S+)", patch)))
-pkg = pkgmap.get(pk) or touched[0]
+pkgmap = {"ctlog": "internal/ctlog", "ctlog_test": "internal/ctlog", "sunlight": ".", "sunlight_test": ".", "witness": "internal/witness", "witness_test": "internal/witness"}
+pkg = (meta.get("demo_pkg") or "").strip("./") or None
+if demos and not pkg:
+    pk = re.search(r"(?m)^package (\w+)", open(demos[0]).read()).group(1)
+    pkg = pkgmap.get(pk) or touched[0]
+pkg = pkg or "."
 tests = "|".join(re.findall(r"(?m)^func (Test\w+)\(", "\n".join(open(d).read() for d in demos)))
 W = tempfile.mkdtemp(prefix="vfconf.", dir="/tmp")
-res = {"seed": sd, "property": prop, "demo_pkg": pkg, "demo_tests": tests}
-def run(cmd, cwd=W, timeout=3600):
-    r = subprocess.run(cmd, cwd=cwd, env=env, stdout=subprocess.PIPE, stderr=subprocess.STDOUT, text=True, timeout=timeout)
-    return r.returncode, r.stdout
+os.rmdir(W)
+res = {"seed": sd, "property": prop, "demo_pkg": pkg, "demo_tests": tests, "repo_head": subprocess.check_output(["git", "-C", "/repo", "rev-parse", "--short", "HEAD"], text=True).strip()}
+
+
+def run(cmd, cwd=None, timeout=5400):
+    try:
+        r = subprocess.run(cmd, cwd=cwd or W, env=env, stdout=subprocess.PIPE, stderr=subprocess.STDOUT, text=True, timeout=timeout)
+        return r.returncode, r.stdout
+    except subprocess.TimeoutExpired as e:
+        return 124, (e.stdout or "") if isinstance(e.stdout, str) else "timeout"
+
+
+def nolog(out):
+    return "\n".join(l for l in out.splitlines() if "level=" not in l and "[rapid] draw" not in l)
+
+
 try:
-    subprocess.run(["rsync", "-a", "--exclude", ".git", "/repo/", W + "/"], check=True)
+    subprocess.run(["git", "-C", "/repo", "worktree", "add", "-q", "--detach", W, "HEAD"], check=True)
+    if subprocess.run(["git", "-C", "/repo", "status", "--porcelain", "--untracked-files=no"], stdout=subprocess.PIPE, text=True).stdout.strip():
+        print("WARNING: /repo has uncommitted changes; the worktree is HEAD")
     for d in demos:
         shutil.copy(d, os.path.join(W, pkg))
     rc, out = run(["go", "test", "-vet=off", "-count=1", "-run", "^(%s)$" % tests, "./" + pkg + "/"])
-    res["demo_pristine_passes"] = rc == 0
+    res["demo_pristine_passes"] = rc == 0 and ("ok " in out or "ok\t" in out)
     if rc != 0:
-        res["demo_pristine_output"] = out[-1500:]
-    rc, out = run(["patch", "-p1", "-s", "-i", os.path.join(sd, "patch.diff")])
+        res["demo_pristine_output"] = nolog(out)[-1500:]
+    rc, out = run(["git", "apply", "--whitespace=nowarn", os.path.join(sd, "patch.diff")])
+    if rc != 0:
+        rc, out = run(["patch", "-p1", "-s", "-i", os.path.join(sd, "patch.diff")])
     res["patch_applies"] = rc == 0
     rc, out = run(["go", "build", "./..."])
     res["builds"] = rc == 0
     rc, out = run(["go", "test", "-vet=off", "-count=1", "-run", "^(%s)$" % tests, "./" + pkg + "/"])
-    res["demo_patched_fails"] = rc != 0
-    res["demo_patched_output"] = "\n".join(l for l in out.splitlines() if "level=" not in l)[-1200:]
+    res["demo_patched_fails"] = rc != 0 and "--- FAIL" in out
+    res["demo_patched_output"] = nolog(out)[-1200:]
     for d in demos:
         os.remove(os.path.join(W, pkg, os.path.basename(d)))
-    if not skip_tests:
-        tr = {}
-        for p in sorted(set(touched + [pkg])):
+    if not skip_tests and res["patch_applies"] and res["builds"]:
+        t0 = time.time()
+        rc, out = run(["go", "test", "-vet=off", "-count=1", "-timeout", "25m", "-skip", "^TestSequenceLargeLog$", "./..."])
+        fails = sorted(set(re.findall(r"--- FAIL: (\S+)", out)))
+        pk_fail = sorted(set(re.findall(r"(?m)^FAIL\s+(\S+)", out)))
+        res["suite"] = {"rc": rc, "failed_tests": fails, "failed_pkgs": pk_fail, "secs": int(time.time() - t0)}
+        if rc != 0:
+            res["suite"]["output"] = nolog(out)[-2500:]
+        big = None
+        for attempt in range(3):
             t0 = time.time()
-            rc, out = run(["go", "test", "-vet=off", "-count=1", "-timeout", "60m", "./" + p + "/"])
-            fails = sorted(set(re.findall(r"--- FAIL: (\S+)", out)))
-            tr[p] = {"rc": rc, "failed": fails, "secs": int(time.time() - t0)}
-        res["existing_tests"] = tr
-        known_flaky = {"TestSequenceLargeLog", "TestCCADBRoots", "TestCCADBRoots/Prod", "TestCCADBRoots/Testing", "TestScripts"}
-        res["existing_tests_pass"] = all(set(v["failed"]) <= known_flaky for v in tr.values())
-    r = subprocess.run(["/verif/check", prop, "quick"], env=dict(os.environ, VERIF_REPO=W), stdout=subprocess.PIPE, stderr=subprocess.STDOUT, text=True)
-    res["check_exit"] = r.returncode
-    m = re.search(r"(violated|VERIF-FAIL)[^\n]{0,400}", r.stdout)
-    res["check_message"] = m.group(0) if m else ""
+            rc2, out2 = run(["go", "test", "-vet=off", "-count=1", "-timeout", "25m", "-run", "^TestSequenceLargeLog$", "./internal/ctlog/"])
+            big = {"rc": rc2, "attempt": attempt + 1, "secs": int(time.time() - t0)}
+            if rc2 == 0:
+                break
+            big["output"] = nolog(out2)[-600:]
+        res["suite"]["TestSequenceLargeLog"] = big
+        res["existing_tests_pass"] = rc == 0 and big["rc"] == 0
+    checks = {}
+    for pid in [prop] + [x for x in (meta.get("also_run") or [])]:
+        t0 = time.time()
+        r = subprocess.run(["/verif/check", pid, tier], env=dict(os.environ, VERIF_REPO=W), stdout=subprocess.PIPE, stderr=subprocess.STDOUT, text=True)
+        m = re.search(r"(violated|VERIF-FAIL|VIOLATION)[^\n]{0,400}", nolog(r.stdout))
+        checks[pid] = {"tier": tier, "exit": r.returncode, "secs": int(time.time() - t0), "message": m.group(0) if m else ""}
+        if r.returncode == 2:
+            checks[pid]["tail"] = nolog(r.stdout)[-800:]
+    res["checks"] = checks
 finally:
+    subprocess.run(["git", "-C", "/repo", "worktree", "remove", "--force", W])
     shutil.rmtree(W, ignore_errors=True)
+    subprocess.run(["git", "-C", "/repo", "worktree", "prune"])
 print(json.dumps(res, indent=1))
 ok = res.get("demo_pristine_passes") and res.get("patch_applies") and res.get("builds") and res.get("demo_patched_fails") and (skip_tests or res.get("existing_tests_pass"))
-if ok:
-    n = os.path.basename(sd)
-    dst = os.path.join("/verif/seeded", "%s-%s" % (prop, n))
+if ok and keep:
+    dst = os.path.join("/verif/seeded", "%s-%s" % (prop, name))
     os.makedirs(dst, exist_ok=True)
     shutil.copy(os.path.join(sd, "patch.diff"), dst)
     for d in demos:
-        shutil.copy(d, os.path.join(dst, os.path.basename(d) + ".txt"))  # .txt so that it is never compiled from here
-    for extra in ("demo.md",):
-        if os.path.exists(os.path.join(sd, extra)):
-            shutil.copy(os.path.join(sd, extra), dst)
-    meta = {}
-    if os.path.exists(os.path.join(sd, "meta.json")):
-        try:
-            meta = json.load(open(os.path.join(sd, "meta.json")))
-        except Exception:
-            meta = {}
-    meta.update({"property": prop, "confirmed": res, "detected_by_quick_check": res["check_exit"] == 1})
+        shutil.copy(d, os.path.join(dst, os.path.basename(d) + ".txt"))  # .txt: never compiled from here
+    old = {}
+    if os.path.exists(os.path.join(dst, "meta.json")):
+        old = json.load(open(os.path.join(dst, "meta.json")))
+    meta.update({"property": prop, "confirmed": res if not skip_tests else dict(old.get("confirmed", {}), **{k: v for k, v in res.items() if k != "suite"}),
+                 "detected": {p: (c["exit"] == 1) for p, c in res["checks"].items()}})
     json.dump(meta, open(os.path.join(dst, "meta.json"), "w"), indent=1)
     print("KEPT", dst)
-else:
+elif not ok:
     print("NOT CONFIRMED", sd)
